@@ -24,7 +24,7 @@ MANIFEST_TEXT = ("Schema 1.x on the whole-library model: every observing call of
 
 
 def tie(ctx):
-    plan = [("mixed", 12, 3)] if ctx.tier == "quick" else [("mixed", 30, 6), ("members", 24, 3)]
+    plan = [("mixed", 12, 8), ("members", 12, 3)] if ctx.tier == "quick" else [("mixed", 30, 20), ("members", 24, 10)]
     r = _lib1.run_part(ctx, "C16", plan, ("observe",), observers=0.6, disk_share=0.3, track_ops=0.35)
     r["rule"] = ("interleaved histories on %s; after most calls a block of 1-4 random observers (every db.q / crate.q / "
                  "track getter / snapshot / is_valid / containing_crates, on live and removed handles) applied twice between "
